@@ -10,6 +10,8 @@
 import numpy
 
 from .statevectorevolution import StateVectorEvolution
+from ...core.managers import Manager
+from ...core.managers import energy_units
 from ..hilbertspace.evolutionoperator import EvolutionOperator
 #from ... import REAL
 
@@ -74,6 +76,13 @@ class StateVectorPropagator:
         
         
         """
+        if Manager().get_current_units("energy") != "int":
+            # equations of motion are integrated in internal units, whatever
+            # units are current for the caller
+            with energy_units("int"):
+                return self.propagate(psii, L=L, hfce=hfce, 
+                                      nonlinear=nonlinear)
+            
         if hfce is not None:
             
             # propagation with the Hamiltonian defined through a function
